@@ -244,6 +244,16 @@ def structure(case):
             if set(frozenset(state_tuples([c.states[k] for k in st])) for st in c.stars) != \
                     set(frozenset(S[k] for k in st) for st in ss.stars):
                 same = False
+        # operands of DIFFERENT range, in both orders, against generation with the summed range (N + 1 <= 3)
+        if N + 1 <= 3:
+            try:
+                one_ = stars.StarSet(jn, crys, chem, 1, originstates=OS)
+                big = set(state_tuples(stars.StarSet(jn, crys, chem, N + 1, originstates=OS).states))
+                for c in (one_ + ss, ss + one_):
+                    if set(state_tuples(c.states)) != big or c.Nshells != N + 1:
+                        same = False
+            except Exception:
+                same = False
         ob('sum-equals-generate-with-summed-range', same)
         # in-place accumulation history: an empty set takes over a one-range set and then grows by it again and
         # again; after every step the accumulator is the k-range set and the operand is still the one-range set
